@@ -11,7 +11,7 @@ const Entry GROUP_C[] = {
     {"OBIM-period1", &run_loop<OBIM1::with_block_period<1>::type>, 0, 0},
     {"OBIM-period3", &run_loop<OBIM::with_block_period<3>::type>, 0, 0},
     {"OBIM-descending", &run_loop<OBIM::with_descending<true>::type>, 0, 0},
-    {"OBIM-barrier", &run_loop<OBIM::with_barrier<true>::type>, 2, 1},
+    {"OBIM-barrier", &run_loop<OBIM::with_barrier<true>::type>, 2, 4},
     {"OBIM-barrier-monotonic",
      &run_loop<OBIM::with_barrier<true>::type::with_monotonic<true>::type>, 2, 1},
     {"OBIM-barrier-descending",
